@@ -5,6 +5,7 @@ pub mod guard;
 pub mod model;
 pub mod mon;
 pub mod refmath;
+pub mod refpow;
 pub mod refsmt;
 pub mod refvm;
 pub mod report;
